@@ -177,6 +177,33 @@ var destructiveAllowed = map[string]string{
 	"sstable.BlockBloomFilterBuilder.Serialize|os.Remove":                 "bloom filter temp file",
 }
 
+// siteOwner names the function a reviewed site belongs to: an unexported function whose only callers (in kevo, tests
+// are not loaded) are one other function of the same package is a helper extracted from that function, and the
+// site is still the caller's (so that moving a loop into a helper does not rename a reviewed site). Two levels at most.
+func (c *Ctx) siteOwner(fn *ssa.Function) *ssa.Function {
+	for d := 0; d < 1; d++ {
+		if fn == nil || fn.Object() == nil || fn.Object().Exported() {
+			return fn
+		}
+		var owner *ssa.Function
+		for _, e := range c.Callers(fn) {
+			cf := topParent(e.Caller.Func)
+			if !c.InKevo(cf) || cf == fn {
+				continue
+			}
+			if owner != nil && owner != cf {
+				return fn
+			}
+			owner = cf
+		}
+		if owner == nil || owner.Pkg != fn.Pkg {
+			return fn
+		}
+		fn = owner
+	}
+	return fn
+}
+
 func ruleDestructiveOps(c *Ctx, r *Reporter) {
 	r.Rule("destructive-ops", 9)
 	for _, fn := range c.KevoFns {
@@ -200,6 +227,21 @@ func ruleDestructiveOps(c *Ctx, r *Reporter) {
 				return
 			}
 			key := FnName(topParent(fn)) + "|" + op
+			if _, known := destructiveAllowed[key]; !known && key != "storage.Manager.recoverFromWAL|os.Rename" {
+				// a helper extracted from a reviewed function: the site is still that function's
+				for o, d := topParent(fn), 0; d < 2; d++ {
+					o2 := c.siteOwner(o)
+					if o2 == o {
+						break
+					}
+					o = o2
+					k2 := FnName(o) + "|" + op
+					if _, known := destructiveAllowed[k2]; known || k2 == "storage.Manager.recoverFromWAL|os.Rename" {
+						key = k2
+						break
+					}
+				}
+			}
 			if why, ok := destructiveAllowed[key]; ok {
 				r.OK(key, c.InsPos(ins), "classified: "+why)
 				return
